@@ -228,5 +228,28 @@ fn c01_k_edge_end_angle_order() {
     assert!(b.key().compare_direction(a.key()) == want.reverse());
 }
 
+/// mod-2 boundary rule: determine_boundary is the parity of the count; CoordNode::set_label_boundary toggles
+/// (after k applications starting from an unlabelled / exterior node the node is on the boundary iff k is odd)
+#[cfg(kani)]
+#[kani::proof]
+#[kani::unwind(8)]
+fn c01_k_mod2_boundary_rule() {
+    let k: usize = kani::any();
+    assert!(GeometryGraph::<f64>::determine_boundary(k) == if k % 2 == 1 { CoordPos::OnBoundary } else { CoordPos::Inside });
+    let mut n = CoordNode::new(Coord { x: 1.0f64, y: 2.0 });
+    let g: usize = kani::any();
+    kani::assume(g < 2);
+    let start_outside: bool = kani::any();
+    if start_outside { n.set_label_on_position(g, CoordPos::Outside); }
+    let other_before = n.label().on_position(1 - g);
+    let mut i = 0;
+    while i < 5 {
+        n.set_label_boundary(g);
+        i += 1;
+        assert!(n.label().on_position(g) == Some(if i % 2 == 1 { CoordPos::OnBoundary } else { CoordPos::Inside }));
+        assert!(n.label().on_position(1 - g) == other_before);
+    }
+}
+
 #[cfg(kani)]
 include!(concat!(env!("GEO_VERIF_DIR"), "/.work/playback/pb_geomgraph.rs"));
